@@ -838,6 +838,7 @@ class InputFinalityMonitor(Monitor):
         self.success = []  # (label, pid) of completed successful runs
         self.build_log_start = 0
         self.refreshed = set()
+        self.refreshed_kind = {}
 
     def on_build_start(self, world):
         self.cmd_running.clear()
@@ -862,10 +863,12 @@ class InputFinalityMonitor(Monitor):
                 break
         if sid is None:
             return
+        declared = self.windows[proc.pid]["declared"] = set()
         for idep, (src, snk) in snap.deps.items():
             if snk != sid or idep in snap.dyn or src not in snap.files:
                 continue
             path = snap.nodes[src][1]
+            declared.add(path)
             producers = [
                 snap.nodes[s2][1]
                 for d2, (s2, k2) in snap.deps.items()
@@ -960,7 +963,12 @@ class InputFinalityMonitor(Monitor):
                                     and "Invalid inputs" in ev2[5]
                                 ):
                                     key = "succeeded-despite-change:hash-refreshed-by-failed-sibling"
+                                    # fixed for inputs verified before the command (repo commit
+                                    # "compare a step's inputs after its command ..."); amended
+                                    # inputs are still compared with the refreshed hash
+                                    key += ":declared-input" if ev[5] in w.get("declared", ()) else ":amended-input"
                                     self.refreshed.add(label)
+                                    self.refreshed_kind[(label, ev[5])] = key.rsplit(":", 1)[1]
                                     break
                             pending_window.append((
                                 "R-final/window",
@@ -1011,7 +1019,7 @@ class InputFinalityMonitor(Monitor):
                 if d != now:
                     key = "succeeded-on-stale-read"
                     if label in self.refreshed:
-                        key += ":hash-refreshed-by-failed-sibling"
+                        key += ":hash-refreshed-by-failed-sibling:" + self.refreshed_kind.get((label, relpath), "amended-input")
                     elif file_state.get(relpath) in (F["OUTDATED"], F["PLANNED"]):
                         # known finding F9: the input was changed after this step finished;
                         # it is OUTDATED now but its consumers were not made pending
